@@ -57,7 +57,15 @@ def run_driver(repo, out_dir, target_dir, features=None, release=False, log=None
         cmd += ["--features", features]
     if release:
         cmd += ["--release"]
-    p = subprocess.run(cmd, env=env, stdout=subprocess.PIPE, stderr=subprocess.STDOUT, text=True)
+    # one driver run at a time per target dir (cargo would serialise anyway; the fingerprint reset must not interleave)
+    lk = open(os.path.join(target_dir, ".zfacts-lock"), "w")
+    fcntl.flock(lk, fcntl.LOCK_EX)
+    try:
+        for d in glob.glob(os.path.join(target_dir, prof, ".fingerprint", "zerv-*")):
+            shutil.rmtree(d, ignore_errors=True)
+        p = subprocess.run(cmd, env=env, stdout=subprocess.PIPE, stderr=subprocess.STDOUT, text=True)
+    finally:
+        fcntl.flock(lk, fcntl.LOCK_UN)
     if log:
         with open(log, "w") as f:
             f.write(p.stdout)
@@ -156,6 +164,9 @@ def finish(rep, level="other", explanation="", assumptions=None, trusted=None):
     new, listed = [], []
     for v in rep.violations:
         (listed if v["key"] in kmap else new).append(v)
+    if getattr(rep, "silent", False):
+        rep.new_violations = new
+        return 1 if new else 0
     rdir = os.path.join(VERIF, "reports", rep.pid)
     shutil.rmtree(rdir, ignore_errors=True)
     os.makedirs(rdir, exist_ok=True)
@@ -187,6 +198,7 @@ def finish(rep, level="other", explanation="", assumptions=None, trusted=None):
         "exhaustive": False,
     }
     cov.update(rep.extra)
+    if getattr(rep, "selftest", None) is not None: cov["selftest"] = rep.selftest
     ev = {
         "property_id": rep.pid,
         "tier": rep.tier,
@@ -203,3 +215,78 @@ def finish(rep, level="other", explanation="", assumptions=None, trusted=None):
     print("%s: %d rule instances, %d violations (%d listed as known findings), %d functions, %.1fs" % (
         rep.pid, rep.obligations, len(rep.violations), len(listed), len(rep.functions), wall))
     return exit_code
+
+
+# ---------------------------------------------------------------------------
+# thorough tier: checker self-tests on seeded variants (scratch copies outside /repo and /verif)
+
+def variants_for(pid):
+    out = []
+    for f in sorted(glob.glob(os.path.join(VERIF, "fixtures", "variants", pid + "_*.diff"))):
+        out.append((os.path.basename(f)[:-5], f))
+    for d in sorted(glob.glob(os.path.join(VERIF, "seeded", pid + "-*"))):
+        f = os.path.join(d, "patch.diff")
+        if os.path.exists(f): out.append(("seeded/" + os.path.basename(d), f))
+    # changes seeded for another property that this check is recorded to catch as well
+    for d in sorted(glob.glob(os.path.join(VERIF, "seeded", "*"))):
+        m = os.path.join(d, "meta.json")
+        if os.path.exists(m) and not os.path.basename(d).startswith(pid + "-"):
+            try:
+                meta = json.load(open(m))
+                if pid in meta.get("caught_by", []): out.append(("seeded/" + os.path.basename(d), os.path.join(d, "patch.diff")))
+            except Exception: pass
+    return out
+
+def selftest(pid, mod, tier_seed=0):
+    global REPO
+    """Apply each variant to a scratch copy of /repo's working tree, re-derive the facts with the same driver and
+    require the rule module to report at least one (non-listed) violation.  Returns a summary dict; raises CheckBroken
+    if a variant that applies is not detected."""
+    import tempfile, random, facts as factsmod
+    vs = variants_for(pid)
+    random.Random(tier_seed).shuffle(vs)
+    res = {"variants": len(vs), "detected": 0, "skipped": [], "missed": [], "details": []}
+    if not vs: return res
+    scratch = tempfile.mkdtemp(prefix="zerv-verif-scratch-")
+    try:
+        for name, patch in vs:
+            work = os.path.join(scratch, "repo")
+            shutil.rmtree(work, ignore_errors=True)
+            os.makedirs(work)
+            for item in ("src", "python", "docs", "Cargo.toml", "Cargo.lock", "rust-toolchain.toml", "README.md"):
+                sp = os.path.join(REPO, item)
+                if os.path.isdir(sp): shutil.copytree(sp, os.path.join(work, item))
+                elif os.path.exists(sp): shutil.copy2(sp, os.path.join(work, item))
+            p = subprocess.run(["git", "apply", "--unsafe-paths", "--directory=" + work, patch], cwd=work, stdout=subprocess.PIPE, stderr=subprocess.STDOUT, text=True)
+            if p.returncode != 0:
+                p = subprocess.run(["patch", "-p1", "-s", "-i", patch], cwd=work, stdout=subprocess.PIPE, stderr=subprocess.STDOUT, text=True)
+            if p.returncode != 0:
+                res["skipped"].append(name); continue
+            out = os.path.join(scratch, "facts")
+            shutil.rmtree(out, ignore_errors=True)
+            try:
+                fact = run_driver(work, out, os.path.join(CACHE, "target"))
+            except CheckBroken as e:
+                res["skipped"].append(name + " (does not compile)"); continue
+            F = factsmod.Facts(fact)
+            sub = Report(pid, "thorough"); sub.silent = True
+            saved = {}
+            old_repo = REPO
+            REPO = work
+            if hasattr(mod, "PYFILE"): saved["PYFILE"] = mod.PYFILE; mod.PYFILE = os.path.join(work, "python/zerv/__init__.py")
+            try:
+                mod.check(F, sub, "quick")
+            finally:
+                REPO = old_repo
+                for k, v in saved.items(): setattr(mod, k, v)
+            newv = getattr(sub, "new_violations", [])
+            if newv:
+                res["detected"] += 1
+                res["details"].append({"variant": name, "reported": [v["key"] for v in newv][:4]})
+            else:
+                res["missed"].append(name)
+    finally:
+        shutil.rmtree(scratch, ignore_errors=True)
+    if res["missed"]:
+        raise CheckBroken("self-test: the check for %s did not report seeded variant(s) %s" % (pid, res["missed"]))
+    return res
